@@ -52,6 +52,11 @@ let run_script cfgline lines =
         | "dropc" -> dropped := geti kv "c" :: !dropped; None
         | _ -> None in
       (match act with Some a -> st := fstep bug !st a | None -> ());
+      (* a disk-only insert = the insert (in-flight entry taken, waiters answered with v) whose record is not resident *)
+      if name = "insertph" then begin
+        st := fstep bug !st (AInsert (n "k", n "v"));
+        st := fstep bug !st (ARemove (n "k"))
+      end;
       let s = !st in
       let callers = List.filter_map (fun (c, r) ->
           let c = int_of_n c in
